@@ -56,6 +56,24 @@ theorem wvRun_scan (active : Option V) (vals : List V) :
   | cons v r ih =>
     simp only [wvRun, List.foldl_append, wvStep_scan, ih]
 
+/-- The state after a run: set up for the last value iff it satisfies the condition. -/
+theorem wvRun_state (active : Option V) (vals : List V) :
+    (wvRun cond active vals).1 = match vals.getLast? with
+      | none => active
+      | some v => if cond v then some v else none := by
+  induction vals generalizing active with
+  | nil => rfl
+  | cons v r ih =>
+    simp only [wvRun]
+    rw [ih]
+    cases r with
+    | nil => simp [wvStep]
+    | cons w r' =>
+      rw [List.getLast?_cons_cons]
+      cases hg : (w :: r').getLast? with
+      | none => simp [List.getLast?_eq_none_iff] at hg
+      | some x => rfl
+
 theorem wvUnsub_scan (active : Option V) : (wvUnsub active).foldl wvScan (some active) = some none := by
   cases active <;> simp [wvUnsub, wvScan]
 
